@@ -38,12 +38,13 @@ TESTS = {
     "standin_channel_id_new": ("zkabacus-crypto", ["C18"], ["states.ChannelId::new"]),
     "standin_establish_tuple": ("zkabacus-crypto", ["C06", "C01"], ["zproofs.EstablishProof::new", "zproofs.EstablishProof::verify"]),
     "standin_pay_tuple": ("zkabacus-crypto", ["C06", "C02"], ["zproofs.PayProof::new", "zproofs.PayProof::verify"]),
+    "standin_no_hidden_slot_exposed": ("zkabacus-crypto", ["C14"], ["zproofs.EstablishProof::new", "zproofs.PayProof::new"]),
     "standin_merchant_flow": ("zkabacus-crypto", ["C04", "C05", "C03", "C01", "C02"], ["merchant.Config::*", "merchant.Unrevoked::complete_payment", "customer.*"]),
 }
 
 
 # stand-ins that run in every tier: they carry a recorded finding that no deductive obligation expresses
-ALWAYS = {"C06": ["standin_channel_id_collision_mod_q", "standin_channel_id_scalar"]}
+ALWAYS = {"C06": ["standin_channel_id_collision_mod_q", "standin_channel_id_scalar"], "C14": ["standin_no_hidden_slot_exposed"]}
 
 
 def tests_for(pid):
